@@ -113,7 +113,7 @@ Lemma master_ok_items : forall input p, parse_master input = Ok p ->
 Proof.
   intros input p H. unfold parse_master in H. unfold body.
   destruct (tag input pfx_ExtM3u) as [rest| |]; cbn [bind] in H; try discriminate.
-  exists rest. split; [reflexivity|].
+  exists rest. split; [reflexivity|]. unfold parse_master_items in H.
   match type of H with context [mrun_lines ?s0 _] => destruct (mrun_lines s0 (lines_of rest)) as [s| |] eqn:E end;
     cbn [bind] in H; try discriminate.
   eapply mrun_lines_ok; eassumption.
